@@ -291,7 +291,7 @@ theorem reset_conserves (s : Irc) : Conserves s (reset s) := by
   intro x
   have h := queueConnectMessages_conserves
     { s with lastTake := 0, afterConnect := false, lastPing := s.now, outstandingPing := false,
-             echoAcked := false, queue := Queue.empty, fast := [] } x
+             echoAcked := false, labelAcked := false, queue := Queue.empty, fast := [] } x
   cnt
 
 theorem pingBranch_conserves (s : Irc) : Conserves s (pingBranch s) := by
@@ -386,6 +386,7 @@ theorem step_conserves (s : Irc) (op : Op) : Conserves s (step s op) := by
   | connected => intro x; simp only [step]; cnt
   | pong => intro x; simp only [step]; cnt
   | capEcho b => intro x; simp only [step]; cnt
+  | capLabel b => intro x; simp only [step]; cnt
   | config c => intro x; simp only [step]; cnt
 
 theorem run_conserves : ∀ (ops : List Op) (s : Irc), Conserves s (run s ops)
